@@ -144,7 +144,7 @@ func mkcorpus(out string) {
 				continue
 			}
 			line := u.line("resolve", t.VK.Name, t.VK.Version)
-			if len(line) > 200000 {
+			if len(line) > 2100000 {
 				fmt.Fprintln(os.Stderr, "skip (size)", t.Name, len(line))
 				continue
 			}
@@ -164,6 +164,9 @@ func mkcorpus(out string) {
 				if bad != "" {
 					fmt.Fprintln(os.Stderr, "ORACLE FAILS on", t.Name, bad)
 				}
+			}
+			if strings.HasPrefix(res, "ok gerr=0") {
+				orc = "ALL"
 			}
 			lines = append(lines, fmt.Sprintf("# %s\n%s\t%s", t.Name, orc, line))
 		}
